@@ -11,6 +11,7 @@ import DriverLib.C03
 import DriverLib.C06
 import DriverLib.C19
 import DriverLib.C05
+import DriverLib.C02
 open Lean Drv
 
 def handlers : List (String → Json → Option (R Json)) := [
@@ -20,6 +21,7 @@ def handlers : List (String → Json → Option (R Json)) := [
   Drv.C06.handle,
   Drv.C19.handle,
   Drv.C05.handle,
+  Drv.C02.handle,
   fun _ _ => none]
 
 def dispatch (line : String) : Json :=
